@@ -1,4 +1,5 @@
 import Proofs.Col
+import Proofs.Block
 /-
 C01 — Block encode→decode is the identity for every column type and nesting.
 
@@ -15,6 +16,17 @@ yields exactly the contents and leaves exactly what followed. -/
 theorem C01_column_roundtrip (cfg : Cfg) (hcap : cfg.cap = none) (c : Col) (r : Bytes) (h : WF cfg c) :
     decCol cfg c.ty c.rows (encCol c [] ++ r) = .ok (c, r) :=
   col_rt cfg hcap c r h
+
+/-- **Block round trip**: BlockInfo, column count, row count, then per column its name, type,
+custom-serialization flag, state prefix and body — a decoder with typed targets of the same
+schema yields exactly the columns and consumes exactly the block, at every revision. -/
+theorem C01_block_roundtrip (cfg : Cfg) (hcap : cfg.cap = none) (v : Nat) (bk : Int) (cols : List Block.BCol)
+    (rows : Nat) (r : Bytes) (hb : -(2 ^ 31) ≤ bk ∧ bk < 2 ^ 31) (hn : cols.length ≤ 1000000)
+    (hr : rows ≤ cfg.maxRows) (hr2 : rows < 2 ^ 63) (hne : cols ≠ [] ∨ rows ≠ 0)
+    (h : ∀ c ∈ cols, Block.BCol.OK cfg rows c) :
+    Block.dec cfg v (Block.schemaOf cols) (Block.enc v bk cols rows ++ r) =
+      .ok (some (Block.seenBucket v bk, rows, cols.map (Block.seenCol rows)), r) :=
+  Block.block_rt cfg hcap v bk cols rows r hb hn hr hr2 hne h
 
 /-- **The bytes produced for a column depend only on its contents, not on what the output buffer
 already contained** — for the column body … -/
